@@ -338,7 +338,7 @@ func init() {
 				Witnesses: []string{"remote-activation", "duplicate-activation", "deactivate", "join-with-active-actors", "leave-with-hosted-actor", "cluster-spawn", "deactivate-of-an-inactive-actor"}, Deadline: 60 * time.Minute}}
 		},
 		Bounds: func(tier string) string {
-			return fmt.Sprintf("%d nodes, each registering kind 'a' or not (symbolic), the last one joining later; quiescent histories of 3 operations (activate a/x or a/y from any member with the select function picking any offered member and returning it either as the offered pointer or as a Member value of its own (symbolic), deactivate any active actor from any member, late join, leave of a member other than node 0, a Cluster.Spawn-style announcement of an actor ab/z (kind name prefix-related to "a") hosted on any member whatever its kinds, Deactivate of a PID that is not active; operation symbolic), notifications delivered in every arrival order before the next operation", tierSel(tier, 2, 3))
+			return fmt.Sprintf("%d nodes, each registering kind 'a' or not (symbolic), the last one joining later; quiescent histories of 3 operations (activate a/x or a/y from any member with the select function picking any offered member and returning it either as the offered pointer or as a Member value of its own (symbolic), deactivate any active actor from any member, late join, leave of a member other than node 0, a Cluster.Spawn-style announcement of an actor ab/z (kind name prefix-related to 'a') hosted on any member whatever its kinds, Deactivate of a PID that is not active; operation symbolic), notifications delivered in every arrival order before the next operation", tierSel(tier, 2, 3))
 		},
 		Outside:     []string{"non-quiescent histories (operations overlapping their notifications)", "Cluster.Activate/GetActiveByID request plumbing: the agents are driven by the same messages those methods send", "Cluster.Spawn's own plumbing (Members() request): the harness spawns on the node's engine and sends the same Activation notifications", "more kinds / ids / members / operations", "SelectRandomMember (a harness select function picks every offered member instead)"},
 		Assumptions: seqAssume("each node: real Agent on a bare engine; network: synchronous in-memory Remoter delivering to the target node's registry; ActivationRequest/activate/getActive are handled at once (their senders block on them), all other agent messages are queued and drained in a harness-chosen order; activated actors are real processes spawned by Engine.Spawn (preemption bound 0: their inbox workers run when the harness blocks or quiesces)"),
